@@ -217,16 +217,24 @@ std::string fmt(const char* f, ...)
  * never returns on deadlock (42) / step cap (43) */
 static int run_plan(const std::vector<std::string>& toks);
 
-/* trigger every lazy initialisation (log categories, once flags, glibc thread stacks...) with the scheduler
- * dormant, so that the first scheduled plan of a process sees the same operations as the n-th */
+/* trigger every lazy initialisation (log categories, once flags, glibc thread stacks...) before the first plan, so
+ * that the first plan of a process sees the same operations as the n-th. Runs under the scheduler (fixed seed,
+ * round-robin) so that a pool that cannot even do this is reported (deadlock / step cap, phase=warmup), not hung. */
 static void warm_up()
 {
+  printf("WARMUP\n");
+  fflush(stdout);
+  obs       = Obs();
+  obs.phase = "warmup";
+  detsched_set_abort_hook(abort_hook);
+  detsched_enable_spec(0, "strategy=rr,quantum=2,cap=200000,cpu=auto");
   for (auto mode : {XBT_PARMAP_POSIX, XBT_PARMAP_FUTEX, XBT_PARMAP_BUSY_WAIT}) {
     simgrid::xbt::Parmap<int> pm(3, mode);
     std::vector<int> data{1, 2, 3, 4};
     std::atomic<int> sum{0};
     pm.apply([&sum](int i) { sum += i; }, data);
   }
+  detsched_disable();
 }
 
 static void make_engine(char* argv0)
@@ -257,8 +265,8 @@ int main(int argc, char** argv)
     dup2(1, 2);
     setvbuf(stdout, nullptr, _IOLBF, 0);
     make_engine(argv[0]);
-    warm_up();
     server_mode = true;
+    warm_up();
     char line[8192];
     while (fgets(line, sizeof line, stdin)) {
       alarm(60); /* wall-clock kill budget: the caller sees the server die of SIGALRM: infrastructure */
@@ -292,6 +300,7 @@ static int run_plan(const std::vector<std::string>& toks)
 {
   kv.clear();
   obs = Obs();
+  printf("START\n");
   for (auto const& t : toks) {
     size_t e = t.find('=');
     if (e == std::string::npos) {
